@@ -101,8 +101,25 @@ pub fn operand_from_range(range: Range, how: &str) -> Result<Operand, String> {
     Ok(Operand { text: format!("{} [= {}]", how, range), range, b })
 }
 
-/// all single-interval operands of the table
+/// the one range that is constructed rather than parsed: unbounded on both sides (the parser
+/// stores every textual catch-all as `>=0.0.0`)
+pub fn any_operand() -> Option<Operand> {
+    let r = guarded(Range::any).ok()?;
+    let b = bounds(&r).ok()?;
+    Some(Operand { text: "Range::any()".to_string(), range: r, b })
+}
+
+/// all single-interval operands of the table, plus `Range::any()` (for the properties that
+/// speak about all ranges: C07–C10)
 pub fn table_operands(chain: &[MV]) -> Vec<Operand> {
+    let mut t = table_operands_parsed(chain);
+    t.extend(any_operand());
+    t
+}
+
+/// the table operands that come from `Range::parse` only (C13 and C15 quantify over parsed
+/// ranges and their compositions; `Range::any()` prints as `*`, which parses to `>=0.0.0`)
+pub fn table_operands_parsed(chain: &[MV]) -> Vec<Operand> {
     table_intervals(chain).iter().filter_map(|iv| operand_from_text(&iv_text(iv))).collect()
 }
 
